@@ -78,6 +78,35 @@ def float_case(rng, fmt, W):
     return "f", (sign << (bits - 1)) | (e << mb) | m
 
 
+def _fbits(fmt, x):
+    """bit pattern of the float nearest to the exact rational x (None when it overflows the format)"""
+    import struct
+    try:
+        f = float(x)
+        if fmt == "f32":
+            return struct.unpack(">I", struct.pack(">f", f))[0]
+        return struct.unpack(">Q", struct.pack(">d", f))[0]
+    except (OverflowError, struct.error):
+        return None
+
+
+def bound_fractions(fmt, W):
+    """non-integral floats hugging the bounds of a W-bit target: +-(2^(W-1)), +-(2^W), +-(2^(W-1)-1), +-(2^W-1)
+    plus/minus a small fraction — distinct from the bound only when W is below the mantissa precision
+    (added after seeded change C19-r4m2: MIN - 0.5 must still truncate to MIN)"""
+    from fractions import Fraction as Fr
+    p = FMT[fmt][0]
+    out = set()
+    for base in (1 << (W - 1), 1 << W, (1 << (W - 1)) - 1, (1 << W) - 1, (1 << (W - 1)) + 1):
+        for d in (Fr(0), Fr(1, 2), Fr(1, 4), Fr(3, 4), Fr(1, 8), Fr(1), Fr(1, 1 << max(1, p - W - 1)), 1 - Fr(1, 1 << max(1, p - W - 1))):
+            for sg in (1, -1):
+                for sd in (1, -1):
+                    b = _fbits(fmt, sg * (base + sd * d))
+                    if b is not None:
+                        out.add(b)
+    return sorted(out)
+
+
 def exponent_sweep(rng, fmt, W):
     """one float per exponent value (both signs): every decoded exponent the conversion code can branch on"""
     p, eb, bits = FMT[fmt]
@@ -101,6 +130,11 @@ def _gen_main(rng, tier):
     for cfg in cfgs(tier):
         w, n = wn(cfg)
         W = w * n
+        if W <= 64:
+            for s in "ui":
+                for fmt in ("f32", "f64"):
+                    for f in bound_fractions(fmt, W):
+                        yield f"from_{fmt} {s}{cfg} {hx(f)}", "bound-fraction"
         for _ in range(reps if n <= 40 else 15):
             for s in "ui":
                 for fmt in ("f32", "f64"):
